@@ -403,7 +403,13 @@ fn map_op<const N: usize>(m: &mut Map<Key, Val, N>, op: &[u64], o: &mut Out) {
                 let old = mem::replace(m, fresh); drop(old); }
         64 => { match op[2] { 0 => fmt_into(format_args!("{}", m), o),
                               1 => fmt_into(format_args!("{:?}", m), o),
-                              _ => fmt_into(format_args!("{:#?}", m), o) } }
+                              _ => fmt_into(format_args!("{:#?}", m), o) }
+                // formatting with width / fill / precision flags must not allocate either (C06);
+                // the rendering itself is not compared
+                let mut scratch = Out::new();
+                fmt_into(format_args!("{:>40}", m), &mut scratch);
+                fmt_into(format_args!("{:<8}", m), &mut scratch);
+                fmt_into(format_args!("{:^60.3?}", m), &mut scratch); }
         _ => unreachable!(),
     }
 }
@@ -624,7 +630,11 @@ fn set_op<const N: usize>(s: &mut Set<Key, N>, op: &[u64], o: &mut Out) {
                  let old = mem::replace(s, fresh); drop(old); }
         164 => { match op[2] { 0 => fmt_into(format_args!("{}", s), o),
                                1 => fmt_into(format_args!("{:?}", s), o),
-                               _ => fmt_into(format_args!("{:#?}", s), o) } }
+                               _ => fmt_into(format_args!("{:#?}", s), o) }
+                 let mut scratch = Out::new();
+                 fmt_into(format_args!("{:>40}", s), &mut scratch);
+                 fmt_into(format_args!("{:<8}", s), &mut scratch);
+                 fmt_into(format_args!("{:^60.3?}", s), &mut scratch); }
         _ => unreachable!(),
     }
 }
